@@ -171,6 +171,29 @@ Definition nt_pathsumsb (eps : Q) (m : mat) (t : ntree) : bool :=
     (nt_pairs t).
 
 (* ------------------------------------------------------------------ *)
+(* the premise of the partial NJ theorem, decided on the model's run: every pair
+   selected along the run is a cherry of the current matrix (the difference of
+   the distances to a and to b is the same from every third taxon) *)
+Definition metric_cherryb (m : mat) (n a b : nat) : bool :=
+  forallb (fun k => forallb (fun l =>
+    Nat.eqb k a || Nat.eqb k b || Nat.eqb l a || Nat.eqb l b
+    || Qeq_bool (dm m a k - dm m b k) (dm m a l - dm m b l)) (seq 0 n)) (seq 0 n).
+
+Fixpoint picks_cherriesb (fuel : nat) (st : njstate) : bool :=
+  match fuel with
+  | O => true
+  | S f =>
+      match nj_step st with
+      | Some (_, st') =>
+          match first_min (nj_scores (nj_m st) (length (nj_cls st))) with
+          | Some ((a, b), _) => metric_cherryb (nj_m st) (length (nj_cls st)) a b
+          | None => true
+          end && picks_cherriesb f st'
+      | None => true
+      end
+  end.
+
+(* ------------------------------------------------------------------ *)
 (* correspondence cases *)
 Inductive algo := AUpgma | ANj.
 
@@ -230,4 +253,8 @@ Definition tb_case_code (c : tb_case) : nat :=
                                && nt_pathsumsb (tb_eps c) (tb_mat c) (tb_nwkd c)
            | Some g, None => false
            | None, _ => true
+           end)
+  + bit 6 (match tb_gen c with
+           | Some g => is_upgma c || picks_cherriesb n (nj_init (tb_mat c))
+           | None => true
            end).
